@@ -167,6 +167,9 @@ func (n *e2Node) start(bootstrap bool, servers []raft.Server) error {
 	n.trans = rafthttp.NewHTTPTransport(raft.ServerAddress(n.addr), &e2Doer{run: r, src: n.idx, auth: true}, nil, "")
 	cfg := raft.DefaultConfig()
 	cfg.Logger = hclog.NewNullLogger()
+	if os.Getenv("VERIF_RAFTLOG") != "" {
+		cfg.Logger = hclog.New(&hclog.LoggerOptions{Name: fmt.Sprintf("raft-n%d", n.idx), Level: hclog.Debug, Output: os.Stderr})
+	}
 	if n.fss, err = raft.NewFileSnapshotStoreWithLogger(n.dir, 5, cfg.Logger); err != nil {
 		return err
 	}
@@ -374,11 +377,31 @@ func (r *e2Run) deliver(src int, req *http.Request, public bool) (*http.Response
 	}
 	r.count("wire_delivered", 1)
 	h := dst.api
-	if strings.HasPrefix(req.URL.Path, "/robustirc/v1/") {
-		req.Header.Set("X-Verif-Proxy-Src", strconv.Itoa(dst.idx))
-		h.DispatchPublic(rec, req)
-	} else {
-		h.DispatchPrivate(rec, req)
+	// the handler runs on the target; if the target process dies meanwhile, the connection breaks and the
+	// caller gets an error (the handler goroutine of the dead incarnation is abandoned)
+	done := make(chan struct{})
+	go func() {
+		defer close(done)
+		if strings.HasPrefix(req.URL.Path, "/robustirc/v1/") {
+			req.Header.Set("X-Verif-Proxy-Src", strconv.Itoa(dst.idx))
+			h.DispatchPublic(rec, req)
+		} else {
+			h.DispatchPrivate(rec, req)
+		}
+	}()
+wait:
+	for {
+		select {
+		case <-done:
+			break wait
+		case <-time.After(100 * time.Millisecond):
+			if !dst.aliveA.Load() || dst.incA.Load() != inc {
+				return fail("connection_reset_target_died")
+			}
+			if src >= 0 && !r.nodes[src].aliveA.Load() {
+				return fail("from_dead_node")
+			}
+		}
 	}
 	time.Sleep(lat)
 	if !dst.aliveA.Load() || dst.incA.Load() != inc {
@@ -400,6 +423,7 @@ type e2Post struct {
 	acked   bool
 	mangled bool
 	ping    bool
+	attempts int
 }
 
 type e2Client struct {
@@ -533,6 +557,9 @@ func (c *e2Client) post(ctx context.Context, line string, p *e2Post) bool {
 		code, rb, _, err := r.request(rctx, node, "POST", "/robustirc/v1/"+c.session+"/message", map[string]string{"X-Session-Auth": c.auth, "Content-Type": "application/json"}, string(body))
 		cancel()
 		r.count("posts_attempted", 1)
+		if p != nil {
+			p.attempts++
+		}
 		switch {
 		case err == nil && code == 200:
 			if p != nil {
@@ -1130,7 +1157,11 @@ type e2Engine struct{}
 
 func (e2Engine) Generate(seed uint64, prop, tier string) (json.RawMessage, error) {
 	g := core.NewSource(seed).Stream("gen")
-	sc := e2Scenario{Engine: "e2", Prop: prop, Seed: seed, Nodes: g.Pick2(1, 3, 3, 3), Clients: g.Range(2, 4), Msgs: g.Range(3, 10), Trailing: g.Pick2(-1, -1, 0, 3), Duration: int64(g.Range(15, 50)) * 1000}
+	// TrailingLogs stays at raft's default as in main(): with a tiny value a follower that snapshotted and has a
+	// divergent uncommitted tail can never be caught up by a leader that still holds the old entries (a property
+	// of hashicorp/raft's AppendEntries consistency check, not of RobustIRC) - measured with TrailingLogs=0.
+	g.Pick2(-1, -1, 0, 3)
+	sc := e2Scenario{Engine: "e2", Prop: prop, Seed: seed, Nodes: g.Pick2(1, 3, 3, 3), Clients: g.Range(2, 4), Msgs: g.Range(3, 10), Trailing: -1, Duration: int64(g.Range(15, 50)) * 1000}
 	nf := g.Range(0, 5)
 	if g.Chance(1, 6) {
 		nf = 0 // fault-free configuration
@@ -1533,6 +1564,13 @@ func (r *e2Run) finalChecks(lastFault time.Time) {
 		var refMsgs []robust.Message
 		for _, n := range r.nodes {
 			ms, code := r.readAll(n, c)
+			// a node may refuse while it is not (yet) a follower in contact with the leader; after the last
+			// fault every node must serve again within the liveness bound
+			for try := 0; code != 200 && try < 60; try++ {
+				time.Sleep(time.Second)
+				ms, code = r.readAll(n, c)
+				r.count("stream_read_retries", 1)
+			}
 			if code != 200 {
 				r.violate("C05", "stream-unavailable", "stream-unavailable", "node %d (%s, last contact %v ago) answers %d for the stream of live session %s after convergence", n.idx, n.raft.State(), time.Since(n.raft.LastContact()), code, c.session)
 				if n.idx == 0 {
@@ -1560,10 +1598,12 @@ func (r *e2Run) finalChecks(lastFault time.Time) {
 					continue
 				}
 				cnt, pos := 0, -1
+				var where []string
 				for i, m := range refMsgs {
 					if strings.Contains(m.Data, " PRIVMSG #sim ") && (strings.HasSuffix(m.Data, " "+p.token) || strings.HasSuffix(m.Data, ":"+p.token)) {
 						cnt++
 						pos = i
+						where = append(where, fmt.Sprintf("%d.%d", m.Id.Id-prodMessageOffsetE2, m.Id.Reply))
 					}
 				}
 				switch {
@@ -1572,7 +1612,7 @@ func (r *e2Run) finalChecks(lastFault time.Time) {
 				case cnt > 1 && r.prop == "C10":
 					r.violate("C10", "retry-applied-twice", "retry-applied-twice:PRIVMSG", "message %s of client %d, repeated with the same client message id, appears %d times in the stream of client %d", p.token, o.idx, cnt, c.idx)
 				case cnt > 1:
-					r.violate("C05", "message-duplicated", "message-duplicated", "message %s of client %d appears %d times in the stream of client %d", p.token, o.idx, cnt, c.idx)
+					r.violate("C05", "message-duplicated", "message-duplicated", "message %s of client %d (posted once by the client, acknowledged=%v, attempts=%d) appears %d times in the stream of client %d, as replies to log entries %v: %s", p.token, o.idx, p.acked, p.attempts, cnt, c.idx, where, r.describeEntries(where))
 				case cnt == 1 && pos < lastPos:
 					r.violate("C05", "order-violated", "order-violated", "message %s of client %d appears before an earlier message of the same sender in the stream of client %d", p.token, o.idx, c.idx)
 				}
@@ -1632,6 +1672,26 @@ func (r *e2Run) finalChecks(lastFault time.Time) {
 		}
 		c.mu.Unlock()
 	}
+}
+
+// describeEntries renders the leader's log entries behind output ids "index.reply" (diagnostics).
+func (r *e2Run) describeEntries(ids []string) string {
+	lead := r.leader()
+	if lead == nil {
+		return ""
+	}
+	var out []string
+	for _, id := range ids {
+		idx, _ := strconv.ParseUint(strings.Split(id, ".")[0], 10, 64)
+		var l raft.Log
+		if err := lead.logs.GetLog(idx, &l); err != nil {
+			out = append(out, fmt.Sprintf("%d: %v", idx, err))
+			continue
+		}
+		m := robust.NewMessageFromBytes(l.Data, robust.IdFromRaftIndex(l.Index))
+		out = append(out, fmt.Sprintf("index %d term %d: session %d client message id %d %q", idx, l.Term, m.Session.Id-prodMessageOffsetE2, m.ClientMessageId, trunc(m.Data, 40)))
+	}
+	return strings.Join(out, " | ")
 }
 
 // propertyChecks: C10 (log entries per client message id), C11 (victims untouched), C16 (same config everywhere)
